@@ -124,6 +124,45 @@ def s2_errors(prop, tier):
     return runs
 
 
+NFAM = 23
+
+
+def fam(prop, tier, cut=True, budget=None, fams=None):
+    q = tier == "quick"
+    b = budget if budget is not None else (2 if q else 3)
+    runs = []
+    for f in (fams if fams is not None else range(NFAM)):
+        r = dict(harness="verifHarness_Fam", args=[prop, f, b, 2 if q else 3])
+        if cut:
+            r["cut"] = CUT
+        runs.append(r)
+    return runs
+
+
+def c08(tier):
+    return fam(8, tier, cut=False)
+
+
+def c02(tier):
+    return s1_parser("verifHarness_C02", "C02/accepted", tier) + [dict(r, args=[2] + r["args"][1:]) for r in s2_accepting(1, tier)] + fam(2, tier)
+
+
+def c16(tier):
+    if tier == "quick":
+        return fam(160, tier, cut=False, budget=1)
+    return fam(16, tier, cut=False, budget=2)
+
+
+def c06(tier):
+    q = tier == "quick"
+    runs = fam(6, tier, budget=1 if q else 2)
+    if q:
+        runs.append(s2(6, 0, 0, 2, EXPR, True))
+    else:
+        runs += [dict(r, args=[6] + r["args"][1:]) for r in s2_accepting(1, "quick")[:2]]
+    return runs
+
+
 def c10(tier):
     runs = s1_parser("verifHarness_C10", "C10/bad", tier, sig_extra=False)
     return runs + s2_errors(10, tier)
@@ -135,15 +174,15 @@ def c01(tier):
     for form in range(8):
         for n in range(0, k + 1):
             runs.append(dict(harness="verifHarness_C01_lit", args=[n, form]))
-    return runs + s2_accepting(1, tier)
+    return runs + s2_accepting(1, tier) + fam(1, tier)
 
 
 def c04(tier):
-    return s1_parser("verifHarness_C04", "C04/done", tier) + s2_errors(4, tier)
+    return s1_parser("verifHarness_C04", "C04/done", tier) + s2_errors(4, tier) + fam(4, tier, cut=False)
 
 
 def c05(tier):
-    return s1_parser("verifHarness_C05", "C05/done", tier) + s2_accepting(5, tier) + s2_errors(5, tier)[:4]
+    return s1_parser("verifHarness_C05", "C05/done", tier) + s2_accepting(5, tier) + s2_errors(5, tier)[:4] + fam(5, tier)
 
 
 def c09(tier):
@@ -166,6 +205,18 @@ PROPS = {
                 bounds={"quick": "S1: all byte strings of length <= 2 on all nine entry points; length 3 over the 24-symbol alphabet for ParseExpr/ParseType",
                         "thorough": "S1: all byte strings of length <= 3; length 4 over the 24-symbol alphabet for ParseExpr/ParseType"},
                 outside="longer inputs that are not covered by the vocabulary/family harnesses"),
+    "C02": dict(level="model_checking", runs=cutpanics(c02), reach=["C02/accepted"],
+                bounds={"quick": "S1 bytes <= 2 (3 over the 24-symbol alphabet for ParseExpr/ParseType); S2 vocabulary slots as C01; 23 sentence families with <= 2 deviations, lists <= 2",
+                        "thorough": "S1 <= 3; S2 one slot more; families with <= 3 deviations, lists <= 3"},
+                outside="inputs outside the bounds; the expected token sequence is the real lexer's token stream of the input (C13/C14 check the lexer)"),
+    "C06": dict(level="model_checking", runs=cutpanics(c06), reach=["C06/accepted"],
+                bounds={"quick": "23 sentence families with <= 1 deviation (every node of every sentence: own-text re-parse and SQL() splice); S2: 2 expression slots",
+                        "thorough": "families with <= 2 deviations; S2 operand x operator matrix and 3 expression slots"},
+                outside="sentences outside the families; node kinds that occur in no explored sentence"),
+    "C16": dict(level="model_checking", runs=cutpanics(c16), reach=["C16/ok"],
+                bounds={"quick": "23 sentence families (<= 1 deviation): one gap at a symbolic token position carrying one of 9 trivia forms; one keyword / pseudo-keyword occurrence at a symbolic position re-cased lower / alternating / symbolic case of its first 3 letters",
+                        "thorough": "families with <= 2 deviations; additionally a gap of 2 symbolic bytes from the trivia alphabet ' \\t\\n/*-#'"},
+                outside="two simultaneous gaps; re-casing of more than one word at a time"),
     "C04": dict(level="model_checking", runs=c04, reach=["C04/done"],
                 bounds={"quick": "S1: all byte strings of length <= 2 on all nine entry points; length 3 over the 24-symbol alphabet for ParseExpr/ParseType",
                         "thorough": "S1: all byte strings of length <= 3; length 4 over the 24-symbol alphabet"},
@@ -178,6 +229,10 @@ PROPS = {
                 bounds={"quick": "S1: all byte strings of length <= 2 on all nine entry points; length 3 over the 24-symbol alphabet for ParseExpr/ParseType",
                         "thorough": "S1: all byte strings of length <= 3; length 4 over the 24-symbol alphabet"},
                 outside="longer inputs"),
+    "C08": dict(level="model_checking", runs=cutpanics(c08), reach=["C08/accepted"],
+                bounds={"quick": "23 sentence families (queries, expressions, types, DML, DDL incl. search/vector index, change stream, sequence, model, grant/revoke, proto bundle, locality group, property graph, CALL): every sentence with at most 2 optional clauses / non-default alternatives / longer lists switched on, lists of <= 2 elements; each sentence alone, and twice in a ';' list with and without trailing ';'",
+                        "thorough": "same families with at most 3 deviations, lists of <= 3 elements"},
+                outside="sentences of the documented grammar with more simultaneous optional clauses or deeper nesting than the families generate"),
     "C10": dict(level="model_checking", runs=cutpanics(c10), reach=["C10/bad", "C10/nobad"],
                 bounds={"quick": "S1: all byte strings of length <= 2 on all entry points; S2: recovery soups of 3 slots over a 24-entry vocabulary in expression, type, query and statement context (2 slots after 'SELECT ' and inside CAST(a AS ...)); operand x operator x operand matrix",
                         "thorough": "S1: length <= 3; S2: soups of 4 slots"},
